@@ -687,7 +687,7 @@ func (p *opParse) documented() bool {
 		if k != "table:other" && k != "filter:hostile-value" && k != "filter:edge-quote" {
 			return false
 		}
-		if k == "filter:edge-quote" && p.pf != nil && !p.pf.strict {
+		if k == "filter:edge-quote" && (p.pf == nil || !p.pf.strict) {
 			return false
 		}
 	}
@@ -696,9 +696,27 @@ func (p *opParse) documented() bool {
 
 func ndefFor(table string) *tableDef { return defFor(table) }
 
-func filterKind(pf *parsedFilter, given bool, add func(string)) {
+// edgeQuoteIn: some quoted literal of the filter texts begins or ends with a
+// quote character (checked lexically, for texts that have no reading as a
+// whole).
+func edgeQuoteIn(texts []string) bool {
+	for _, f := range texts {
+		for _, q := range quotedRE.FindAllStringSubmatch(f, -1) {
+			for _, body := range q[1:] {
+				if body != "" && (body[0] == '\'' || body[0] == '"' || body[len(body)-1] == '\'' || body[len(body)-1] == '"') {
+					return true
+				}
+			}
+		}
+	}
+	return false
+}
+
+func filterKind(pf *parsedFilter, given bool, texts []string, add func(string)) {
 	switch {
 	case !given:
+	case pf == nil && edgeQuoteIn(texts):
+		add("filter:edge-quote")
 	case pf == nil:
 		add("filter:unparsed")
 	case pf.edgeQuote:
@@ -731,7 +749,11 @@ func classify(op *Op, body string, rowids bool) *opParse {
 		if op.Filter != nil {
 			p.pf = parseFilters([]string{*op.Filter}, ndefFor(op.Table))
 		}
-		filterKind(p.pf, op.Filter != nil, p.add)
+		var texts []string
+		if op.Filter != nil {
+			texts = []string{*op.Filter}
+		}
+		filterKind(p.pf, op.Filter != nil, texts, p.add)
 		if def == nil {
 			p.pf = nil
 		}
